@@ -17,7 +17,7 @@ LEVEL_NOTE = ("Trusted: Lean kernel (+ standard axioms); hand models (tied by co
 TECHNIQUE = "Lean 4 proof of column aggregates = per-column list spec; numpy-evaluated correspondence"
 DESIGN_REF = "7"
 LEAN_MODULES = ["NpsVerif.Props.C09"]
-KERNELS = ()
+KERNELS = ("view2_ends", "col_slice_int")
 RULE = ("cases = ragged shape with >= 1 non-empty row (exhaustive <=4 rows x <=3 cells + random up to 14 rows x 9 cells) x function "
         "(sum axis 0 via method / np.sum, mean axis 0, col_counts, get_column_values(j) for every j up to max length + 1) x dtype "
         "(bool, signed, unsigned, float; integers beyond 2**53); distinct = distinct (lengths, function, dtype); non-trivial = "
